@@ -171,7 +171,9 @@ def part_generated(args):
         run("option", hdr.SOMEIPSDOption.parse, b6, f"IPv6 SD endpoint option protocol {proto}")
     # configuration options: garbage after the terminator, odd strings
     for items, tail in itertools.product(
-            ((), (b"k",), (b"k=v",), (b"=v",), (b"k=",), (b"a=b=c", b"x"), (b"\x01\x02",)), (b"", b"\x00", b"junk", b"\x05abc")):
+            ((), (b"k",), (b"k=v",), (b"=v",), (b"k=",), (b"a=b=c", b"x"), (b"\x01\x02",), (b"=",), (b"==",),
+             (b"k=\xc3\xa9",), (b"\xc3\xa9",), (b"a\xe2\x82\xac=x", b"y"), (b"\xf0\x9f\x98\x80=1",), (b"k=\xe9",), (b"\x7f=\x7f",)),
+            (b"", b"\x00", b"junk", b"\x05abc")):
         body = b"\x00" + b"".join(bytes([len(s)]) + s for s in items) + b"\x00" + tail
         run("option", hdr.SOMEIPSDOption.parse, refcodec.tobe(len(body), 2) + b"\x01" + body, f"config option {items} tail {tail!r}")
     # all flag values with one entry, non-zero reserved bytes in the SD header
